@@ -92,8 +92,8 @@ void ParallelAction::onStart() {
             //! 如果是任一失败都退出，那么要直接结束
             //! 先停止其余子动作再 finish()：finish() 的 final 回调里可能已重新启动本动作，之后不能再动子动作
             if (mode_ == Mode::kAnyFail) {
-                stopAllActions();
-                finish(true);
+                if (stopAllActions())
+                    finish(true);
                 return;
             }
         }
@@ -173,10 +173,17 @@ void ParallelAction::onFinished(bool is_succ, const Reason &why, const Trace &tr
     AssembleAction::onFinished(is_succ, why, trace);
 }
 
-void ParallelAction::stopAllActions() {
+bool ParallelAction::stopAllActions() {
+    //! 子动作 stop() 时，它的 final 回调里可能已 reset() 了本动作（还可能重新 start()）：
+    //! 那一轮已不存在，其余子动作属于新一轮，不能再去停止它们，调用者也不能再 finish()
+    const auto reset_count_at_entry = resetCount();
+
     for (Action *action : children_) {
         action->stop();
+        if (resetCount() != reset_count_at_entry)
+            return false;
     }
+    return true;
 }
 
 void ParallelAction::pauseAllActions() {
@@ -191,8 +198,8 @@ void ParallelAction::onChildFinished(int index, bool is_succ) {
 
         if ((mode_ == Mode::kAnySucc && is_succ) ||
             (mode_ == Mode::kAnyFail && !is_succ)) {
-            stopAllActions();
-            finish(true);
+            if (stopAllActions())
+                finish(true);
 
         } else if (finished_children_.size() == children_.size()) {
             finish(true);
